@@ -194,7 +194,12 @@ func (w *World) Settle() []*Arrival {
 		if a.C != b.C {
 			return a.C < b.C
 		}
-		return string(a.Blob) < string(b.Blob)
+		if sa, sb := string(a.Blob), string(b.Blob); sa != sb {
+			return sa < sb
+		}
+		// indistinguishable first arrivals (two goroutines spawned by the code under test that reach the same
+		// breakpoint in the same phase): goroutine ids grow in creation order when one goroutine spawned both
+		return a.gid < b.gid
 	})
 	for _, a := range got {
 		id, ok := w.actors[a.gid]
